@@ -36,7 +36,7 @@ func runC20(p *load.Program, r *core.Report) {
 	info := pk.TypesInfo
 	// ---- K1 descriptors
 	rule := "C20.K1 field-plumbing"
-	r.Floor(rule, 4)
+	r.Floor(rule, 5)
 	type desc struct {
 		min, max int64
 		mask     string
@@ -237,53 +237,88 @@ func runC20(p *load.Program, r *core.Report) {
 	if f := p.Func("node", "cronSpecMask", "IsRunAt"); f != nil {
 		key := "C20.K1|cronSpecMask.IsRunAt"
 		inst := "day and weekday are combined by AND with a wildcard and by OR when both are restricted; minute/hour/month must all match"
-		// structure: returns false when (len(Day)==0 && !WeekDay.IsRunAt) ; (len(WeekDay)==0 && !Day.IsRunAt) ; (both>0 && !Day && !WeekDay) ; !MinHourMonth
-		calls := map[string]int{}
-		eachInstr(f, func(in ssa.Instruction) {
-			cc := callCommon(in)
-			if cc == nil || !callsNamed(in, "IsRunAt") {
-				return
+		// exhaustive execution over the abstraction {list empty?, list matches?} x 3 lists
+		lastField := func(v ssa.Value) string {
+			if _, path, ok := fieldPath(v); ok && len(path) > 0 {
+				return path[len(path)-1]
 			}
-			if _, path, ok := fieldPath(cc.Args[0]); ok && len(path) > 0 {
-				calls[path[len(path)-1]]++
+			return ""
+		}
+		x := &boolExec{
+			leafBool: func(v ssa.Value) string {
+				c, ok := v.(*ssa.Call)
+				if !ok || !callsNamed(c, "IsRunAt") || len(c.Call.Args) == 0 {
+					return ""
+				}
+				if n := lastField(c.Call.Args[0]); n != "" {
+					return "run:" + n
+				}
+				return ""
+			},
+			leafLen: lastField,
+		}
+		x.run(f)
+		vars := []string{"empty:Day", "empty:WeekDay", "run:Day", "run:WeekDay", "run:MinHourMonth"}
+		valid := func(e map[string]bool) bool {
+			// an empty list matches every minute (cronMaskList.IsRunAt starts from true)
+			return !(e["empty:Day"] && !e["run:Day"]) && !(e["empty:WeekDay"] && !e["run:WeekDay"])
+		}
+		want := func(e map[string]bool) bool {
+			if !e["run:MinHourMonth"] {
+				return false
 			}
-		})
+			switch {
+			case e["empty:Day"]:
+				return e["run:WeekDay"]
+			case e["empty:WeekDay"]:
+				return e["run:Day"]
+			}
+			return e["run:Day"] || e["run:WeekDay"]
+		}
+		if x.err != "" {
+			r.Unk(rule, key, fname(f), p.Pos(f.Pos()), inst, "the combination function could not be executed abstractly: "+x.err)
+		} else {
+			cex, covered := x.check(vars, valid, want)
+			switch {
+			case len(cex) > 0:
+				r.Bad(rule, key, fname(f), p.Pos(f.Pos()), inst, fmt.Sprintf("%d of %d abstract inputs give the wrong answer, e.g. %s", len(cex), covered, cex[0]))
+			case covered != 18:
+				r.Unk(rule, key, fname(f), p.Pos(f.Pos()), inst, fmt.Sprintf("only %d of the 18 abstract inputs were covered", covered))
+			default:
+				r.OK(rule, key, fname(f), p.Pos(f.Pos()), inst, fmt.Sprintf("truth table verified on all %d abstract inputs (%d paths)", covered, len(x.rows)))
+			}
+		}
+	}
+	// the empty-list convention the table relies on
+	if f := p.Func("node", "cronMaskList", "IsRunAt"); f != nil {
+		key := "C20.K1|cronMaskList.IsRunAt"
+		inst := "a list matches when it is empty, fails when a minute/hour/month mask fails, and otherwise matches when one of its day/weekday masks matches"
 		var probs []string
-		if calls["MinHourMonth"] < 1 {
-			probs = append(probs, "the minute/hour/month list is not consulted")
-		}
-		if calls["Day"] < 2 || calls["WeekDay"] < 2 {
-			probs = append(probs, fmt.Sprintf("day list consulted %d time(s), weekday list %d time(s) (each is needed once alone and once in the OR rule)", calls["Day"], calls["WeekDay"]))
-		}
-		// the only `return true` is dominated by MinHourMonth.IsRunAt true
-		okTrue := false
+		// the value returned when the loop body never runs is the constant true
+		emptyTrue := false
 		eachInstr(f, func(in ssa.Instruction) {
 			ret, ok := in.(*ssa.Return)
 			if !ok {
 				return
 			}
-			if b, okb := constBool(ret.Results[0]); okb && b {
-				eachInstr(f, func(i2 ssa.Instruction) {
-					c, okc := i2.(*ssa.Call)
-					if !okc || !callsNamed(i2, "IsRunAt") {
-						return
+			if ph, ok := unspill(ret.Results[0]).(*ssa.Phi); ok {
+				for _, e := range ph.Edges {
+					if b, okb := constBool(e); okb && b {
+						emptyTrue = true
 					}
-					if _, path, okp := fieldPath(c.Common().Args[0]); okp && len(path) > 0 && path[len(path)-1] == "MinHourMonth" {
-						t, _, _ := boolEdges(c)
-						if edgesDominate(t, ret) {
-							okTrue = true
-						}
-					}
-				})
+				}
+			}
+			if b, okb := constBool(ret.Results[0]); okb && b && len(f.Blocks) > 0 && ret.Block() == f.Blocks[0] {
+				emptyTrue = true
 			}
 		})
-		if !okTrue {
-			probs = append(probs, "a positive answer is possible without the minute/hour/month list matching")
+		if !emptyTrue {
+			probs = append(probs, "an empty list does not evaluate to true")
 		}
 		if len(probs) > 0 {
 			r.Bad(rule, key, fname(f), p.Pos(f.Pos()), inst, strings.Join(probs, "; "))
 		} else {
-			r.OK(rule, key, fname(f), p.Pos(f.Pos()), inst, fmt.Sprintf("lists consulted: %v", calls))
+			r.OK(rule, key, fname(f), p.Pos(f.Pos()), inst, "the loop-free exit returns the initial value true")
 		}
 	}
 
